@@ -127,9 +127,15 @@ def run(ctx):
                 if acc and rejected:
                     import random as _rnd
                     brng = _rnd.Random(hash((name, n, p)) & 0xFFFF)
-                    for _ in range(6 if ctx.quick() else 20):
+                    for it_b in range(8 if ctx.quick() else 24):
                         good = [brng.choice(acc) for _ in range(brng.randint(2, 4))]
                         kind_b = brng.choice(["all-valid", "first", "middle", "last", "negative-middle", "past-end-middle"])
+                        if it_b < 2:
+                            # MANY valid rows of different shapes in one call (a dozen, in random order, one of them twice): validity is a property of each ROW
+                            kind_b = "all-valid"
+                            good = brng.sample(acc, min(len(acc), 12))
+                            good.append(good[0])
+                            brng.shuffle(good)
                         rows_b = list(good)
                         if kind_b != "all-valid":
                             pool = rejected
@@ -147,6 +153,17 @@ def run(ctx):
                                           {"scorer": name, "n": n, "p": p, "X": X.tolist(), "cuts": [list(r) for r in rows_b], "exception": st},
                                           {"scorer": name, "what": "exception class", "class": st.split(":")[1], "batch": kind_b})
                             continue
+                        if st == "ok" and kind_b == "all-valid":
+                            # "scores exactly the described cuts": row i of the result belongs to row i of the argument, whatever the order of the rows and however often
+                            # one of them occurs
+                            try:
+                                singles = np.vstack([np.asarray(sc.evaluate(np.array([r_])), dtype=float) for r_ in rows_b])
+                                if np.asarray(val).shape != singles.shape or not np.allclose(np.asarray(val, dtype=float), singles, rtol=1e-12, atol=1e-12, equal_nan=True):
+                                    ctx.violation(f"{name}: a batch of {len(rows_b)} valid cuts (unsorted, one of them twice) is not scored row by row: the rows of the result differ "
+                                                  f"from the cuts evaluated one at a time", {"scorer": name, "n": n, "p": p, "X": X.tolist(), "cuts": [list(r) for r in rows_b]},
+                                                  {"scorer": name, "what": "batch-rows", "batch": kind_b})
+                            except RuntimeError:
+                                pass
                         arg_cases.append(f"({kind_term(kind)}, {n}, (IntRows {k}%nat {coq_list([zlist(r) for r in rows_b])}), "
                                          f"{'true' if st != 'ValueError' else 'false'})")
                         arg_meta.append({"scorer": name, "n": n, "p": p, "X": X.tolist(), "arg_kind": "batch:" + kind_b, "cuts": [list(r) for r in rows_b], "impl": st})
